@@ -493,6 +493,21 @@ def events_between(fn, a, b):
     return res
 
 
+def may_precede(fn, a, b):
+    """Some path executes event a and later event b."""
+    if a.block.id == b.block.id and a.idx < b.idx:
+        return True
+    seen = set()
+    st = [s for s in a.block.succs if s is not None]
+    while st:
+        x = st.pop()
+        if x in seen:
+            continue
+        seen.add(x)
+        st.extend(s for s in fn.blocks[x].succs if s is not None)
+    return b.block.id in seen
+
+
 def path_events(fn, path):
     """Events along an enumerated path (list of (block, atoms))."""
     for (bid, _at) in path:
